@@ -397,3 +397,61 @@ Proof.
   - eapply ok_job_counts_l; eassumption.
   - eapply ok_agent_same_l; eassumption.
 Qed.
+
+(* ================================================================ submission bulks *)
+(* _start_pilot_bulk fetches the resource config once and prepares every pilot
+   of the bulk from it: a bulk is sized pilot by pilot, no pilot's figures
+   depend on the pilots prepared before it. *)
+Lemma map_res_Forall2 :
+  forall {A B} (f : A -> res B) l r,
+    map_res f l = inr r -> Forall2 (fun x y => f x = inr y) l r.
+Proof.
+  intros A B f l. induction l as [|x l IH]; intros r H; simpl in H.
+  - injection H as <-. constructor.
+  - unfold bind in H. destruct (f x) as [|y] eqn:Ex; [discriminate|].
+    destruct (map_res f l) as [|ys] eqn:El; [discriminate|].
+    injection H as <-. constructor; [assumption|apply IH; reflexivity].
+Qed.
+
+Lemma bulk_pilot_by_pilot_l :
+  forall Tb site rname schema qs ss,
+    launch_bulk Tb site rname schema qs = inr ss ->
+    Forall2 (fun q s => launch Tb site rname schema q = inr s) qs ss.
+Proof.
+  intros Tb site rname schema qs ss H. unfold launch_bulk, bind in H.
+  destruct (get_resource_config Tb site rname schema false) as [|rcfg] eqn:E; [discriminate|].
+  apply map_res_Forall2 in H.
+  induction H as [|q s qs' ss' Hq _ IH]; constructor; [|exact IH].
+  unfold launch, bind. rewrite E. exact Hq.
+Qed.
+
+Definition pilot_ok (site rname : string) (schema : option string) (q : request) (s : sized) : Prop :=
+  exists ma p, platform site rname schema (q_env_smt q) = inr (ma, p) /\
+               ok_min_nodes p q s = true /\ ok_job_counts p s = true /\ ok_agent_same s = true.
+
+Lemma shipped_bulks_sized_l :
+  forall site rname schema qs,
+    In (site, rname, schema) (all_config_schemas T) ->
+    (forall q, In q qs -> env_ok (q_env_smt q)) ->
+    (forall q ma p, In q qs -> platform site rname schema (q_env_smt q) = inr (ma, p) ->
+                    valid_request ma p q = true) ->
+    exists ss, launch_bulk T site rname schema qs = inr ss /\
+               Forall2 (pilot_ok site rname schema) qs ss.
+Proof.
+  intros site rname schema qs Hin Henv Hval.
+  unfold launch_bulk, bind.
+  destruct (get_resource_config T site rname schema false) as [e|rcfg] eqn:E.
+  - exfalso. destruct (shipped_platform site rname schema None Hin I) as [ma [p [Hpl _]]].
+    unfold platform, bind in Hpl. rewrite E in Hpl. discriminate.
+  - induction qs as [|q qs IH].
+    + exists []. split; [reflexivity|constructor].
+    + destruct IH as [ss [Hss Hall]].
+      { intros q' Hq'. apply Henv. right; assumption. }
+      { intros q' ma p Hq'. apply Hval. right; assumption. }
+      destruct (shipped_valid_requests_sized_l site rname schema q Hin (Henv q (or_introl eq_refl)))
+        as [ma [p [Hpl Hsz]]].
+      destruct (Hsz (Hval q ma p (or_introl eq_refl) Hpl)) as [s [Hl [H1 [H2 H3]]]].
+      exists (s :: ss). split.
+      * simpl. unfold launch, bind in Hl. rewrite E in Hl. unfold bind. rewrite Hl, Hss. reflexivity.
+      * constructor; [|assumption]. exists ma, p. repeat split; assumption.
+Qed.
